@@ -69,7 +69,7 @@ def run(ctx):
     cal = V.calibrate(ctx, ctx.pick(200, 600))
     if cal["bad"]:
         raise vf.Infra("calibration failure of ScriptVM.tla")
-    cases = gen_cases(ctx, ctx.pick(900, 60000))
+    cases = gen_cases(ctx, ctx.pick(900, 100000))
     events = V.run_cases(ctx, cases, three=False, tag="sig")
     rejects, st = V.validate(ctx, events)
     ctx.cov.update(st)
